@@ -169,6 +169,17 @@ func (w *World) applyPureN(e *Env, pf *PureFn, args []TV, i int) *Term {
 
 // inline executes a closure body in place.
 func (fr *Frame) inline(fn *ssa.Function, mc *ssa.MakeClosure, defFrame *Frame, args []ssa.Value, ci ssa.CallInstruction) []*Term {
+	terms := make([]*Term, len(args))
+	clos := make([]*closureRef, len(args))
+	for i, a := range args {
+		terms[i] = fr.val(a)
+		clos[i] = fr.closureOf(a)
+	}
+	return fr.inlineT(fn, mc, defFrame, terms, clos)
+}
+
+// inlineT executes a closure body in place with the given argument terms.
+func (fr *Frame) inlineT(fn *ssa.Function, mc *ssa.MakeClosure, defFrame *Frame, args []*Term, argClos []*closureRef) []*Term {
 	enc := fr.enc
 	if fr.depth > 6 {
 		enc.unsup("inlining too deep at %s", fn.Name())
@@ -180,8 +191,15 @@ func (fr *Frame) inline(fn *ssa.Function, mc *ssa.MakeClosure, defFrame *Frame, 
 	sub := enc.newFrame(fn, fc, fr)
 	sub.pfx = fmt.Sprintf("%si%d_", fr.pfx, enc.w.fresh())
 	for i, p := range fn.Params {
-		sub.bindParam(p, args[i], fr)
+		if argClos != nil && argClos[i] != nil {
+			if sub.paramClos == nil {
+				sub.paramClos = map[*ssa.Parameter]*closureRef{}
+			}
+			sub.paramClos[p] = argClos[i]
+		}
+		sub.vals[p] = args[i]
 	}
+	sub.defFrame, sub.defClosure = defFrame, mc
 	if mc != nil {
 		for i, fv := range fn.FreeVars {
 			b := mc.Bindings[i]
